@@ -131,6 +131,12 @@ func c11DownstreamCases(rnd *rand.Rand, thorough bool) []hostileCase {
 		c.DeclArr = 1048576
 	}
 	add("nested-then-valid", append(rep("*1\r\n", 40), resp.CmdS("PING")...), false)
+	// nesting where every level first carries a sibling element (depth accounting must survive null / empty / scalar siblings)
+	for _, sib := range []string{"*-1\r\n", "*0\r\n", "$-1\r\n", ":1\r\n", "*1\r\n:1\r\n"} {
+		for _, d := range []int{1000, 1000000, 3000000} {
+			add(fmt.Sprintf("nesting-with-sibling-%s-depth-%d", strconv.Quote(sib), d), rep("*2\r\n"+sib, d), false)
+		}
+	}
 	return cs
 }
 
@@ -154,7 +160,8 @@ func c11BackendCases(rnd *rand.Rand, thorough bool) []hostileCase {
 	for _, rc := range []string{"plain", "asking", "readonly", "cluster", "scan"} {
 		for _, e := range []string{"MOVED", "MOVED ", "MOVED 1", "MOVED 1 ", "ASK 1", "ASK", "ask 1", "MOVED 1 x", "MOVED 1 1.2.3.4", "moved 99999 127.0.0.1:1", "MOVED -1 127.0.0.1:1",
 			"MOVED 1 127.0.0.1:1 extra words", "ASK 1 :", "MOVED  1  127.0.0.1:1", "MOVED\t1\t127.0.0.1:1", "MOVED 1 " + strings.Repeat("9", 5000), "ASK 1 \x00\xff\xfe", "CLUSTERDOWN", "CLUSTERDOWN ", "clusterdown Hash slot not served",
-			"MOVED 1 127.0.0.1:99999", "ASK 1 [::1]:1", "MOVED 18446744073709551616 127.0.0.1:1"} {
+			"MOVED 1 127.0.0.1:99999", "ASK 1 [::1]:1", "MOVED 18446744073709551616 127.0.0.1:1",
+			"A\u017fK 1 127.0.0.1:1", "A\u017f\u212a 1 127.0.0.1:1", "a\u017fk 1 127.0.0.1:1"} {
 			if rc != "plain" && len(e) > 40 {
 				continue
 			}
@@ -185,6 +192,12 @@ func c11BackendCases(rnd *rand.Rand, thorough bool) []hostileCase {
 		"slots-many-dashes":    line(1, "127.0.0.1:7001@17001", "master", "-", "1-2-3 ---"),
 		"slots-brackets":       line(1, "127.0.0.1:7001@17001", "master", "-", "[1->-abc] [ ] [] [5-<-"),
 		"slots-out-of-range":   line(1, "127.0.0.1:7001@17001", "master", "-", "16384 20000-30000 65536"),
+		"slot-single-16384":    line(1, "127.0.0.1:7001@17001", "master", "-", "0-100 16384"),
+		"slot-single-16383":    line(1, "127.0.0.1:7001@17001", "master", "-", "16383"),
+		"slot-single-65536":    line(1, "127.0.0.1:7001@17001", "master", "-", "5 65536"),
+		"slot-single-negative": line(1, "127.0.0.1:7001@17001", "master", "-", "0-5 -1"),
+		"slot-range-to-16384":  line(1, "127.0.0.1:7001@17001", "master", "-", "16000-16384"),
+		"slot-range-to-16383":  line(1, "127.0.0.1:7001@17001", "master", "-", "0-16383"),
 		"binary":               "\x00\xff\xfe \x01 \x02 \x03 \x04 \x05 \x06 \x07 \x08\n",
 		"ten-thousand-nodes": func() string {
 			var b strings.Builder
@@ -521,6 +534,9 @@ func c11(r *ev.Run) {
 			if !restart() {
 				return
 			}
+		}
+		if c.Side == "backend" && c.ReqClass == "plain" && strings.HasPrefix(c.Class, "backend-redirect:") && outcome == "silence" {
+			r.Violation("C11:silence:"+c.Class, "the backend answered the request with an error line, but the client got neither a reply nor a close", witness)
 		}
 		if c.Complete && outcome == "silence" {
 			r.Violation("C11:silence:"+c.Class, "a complete request got neither a reply nor a close", witness)
